@@ -85,7 +85,7 @@ type GraphOpts struct {
 }
 
 func DefaultGraphOpts() GraphOpts {
-	return GraphOpts{MaxDocs: 5, Spell: SpellAll, RefPct: 35, CycleBias: 8, MaxElems: 3, SchemaDocs: true, DagPct: 40}
+	return GraphOpts{MaxDocs: 5, Spell: SpellAll, RefPct: 35, CycleBias: 8, MaxElems: 3, SchemaDocs: true, DagPct: 40, QuoteNames: true}
 }
 
 type target struct {
